@@ -55,7 +55,7 @@ func prepDataVSF64(a Tensor, b interface{}, reuse Tensor) (dataA *storage.Header
 		dataReuse = reuse.hdr()
 	}
 
-	if a.RequiresIterator() || (reuse != nil && reuse.RequiresIterator()) {
+	if a.RequiresIterator() || (reuse != nil && (reuse.RequiresIterator() || !reuse.DataOrder().HasSameOrder(a.DataOrder()))) {
 		ait = a.Iterator()
 		if reuse != nil {
 			iit = reuse.Iterator()
@@ -159,6 +159,7 @@ func (e Float64Engine) FMAScalar(a Tensor, x interface{}, y Tensor) (retVal Tens
 	if useIter {
 		err = execution.MulIterIncrVSF64(dataTensor.Float64s(), scalar, dataReuse.Float64s(), ait, iit)
 		retVal = reuse
+		return // the flat kernel below is the other branch, not a second pass over the storage
 	}
 
 	execution.MulIncrVSF64(dataTensor.Float64s(), scalar, dataReuse.Float64s())
@@ -185,8 +186,14 @@ func (e Float64Engine) Add(a Tensor, b Tensor, opts ...FuncOpt) (retVal Tensor, 
 	var hdrA, hdrB, hdrReuse *storage.Header
 	var dataA, dataB, dataReuse []float64
 
-	if hdrA, hdrB, hdrReuse, _, _, _, _, _, err = prepDataVV(a, b, reuse); err != nil {
+	var useIter bool
+	if hdrA, hdrB, hdrReuse, _, _, _, useIter, _, err = prepDataVV(a, b, reuse); err != nil {
 		return nil, errors.Wrapf(err, "Float64Engine.Add")
+	}
+	if bd, ok := b.(DenseTensor); useIter || (ok && reuse != nil && bd == reuse) {
+		// operands or destination of different data orders or layouts, or a destination that is the second operand:
+		// the flat kernels below would pair the wrong elements (or read b after overwriting it)
+		return e.StdEng.Add(a, b, opts...)
 	}
 	dataA = hdrA.Float64s()
 	dataB = hdrB.Float64s()
